@@ -2333,13 +2333,14 @@ func (dsc *dataStoreCommand) fieldAddFloat(keyName, fieldName string, delta floa
 			ve = VALUE_OVERFLOW
 			return
 		}
-		dsc.keyModifiedUnlocked(keyName)
 		ve = VALUE_EXISTS
 	} else {
 		ve = VALUE_DOESNT_EXIST
 	}
 
 	m.store(fieldName, strconv.FormatFloat(value, 'f', -1, 64))
+	// a new field changes the hash as much as a new value of an old one
+	dsc.keyModifiedUnlocked(keyName)
 	return
 }
 
